@@ -5,7 +5,27 @@ sys.path.insert(0, os.getcwd())
 ap = argparse.ArgumentParser(); ap.add_argument("--obligation", default=""); ap.add_argument("--model", default="{}")
 a = ap.parse_args()
 from insights.client import utilities
-if "generate_machine_id/post:E3" in a.obligation:
+if a.obligation.endswith("generate_machine_id/post:E3") or a.obligation.endswith("generate_machine_id/post:E0") or a.obligation.endswith("generate_machine_id/post:E1"):
+    # stability / no-rewrite clauses with the directory present: read, forced regeneration, read
+    tmp = tempfile.mkdtemp(prefix="c17_", dir="/var/tmp" if os.path.isdir("/var/tmp") else None)
+    try:
+        dest = os.path.join(tmp, "machine-id")
+        utilities._get_rhsm_identity = lambda: None
+        bad = []
+        id1 = utilities.generate_machine_id(destination_file=dest)
+        if utilities.generate_machine_id(destination_file=dest) != id1:
+            bad.append("two plain reads differ")
+        id2 = utilities.generate_machine_id(new=True, destination_file=dest)
+        id3 = utilities.generate_machine_id(destination_file=dest)
+        if id3 != id2:
+            bad.append("after a forced regeneration returning %s the next read returns %s" % (id2, id3))
+        if open(dest).read().strip() != id3:
+            bad.append("file holds %r, returned %r" % (open(dest).read(), id3))
+        print("; ".join(bad) or "stable")
+        sys.exit(1 if bad else 0)
+    finally:
+        shutil.rmtree(tmp, ignore_errors=True)
+if a.obligation.endswith("generate_machine_id/post:E3[kf]"):
     # stability clause with the parent directory of the identifier file absent
     tmp = tempfile.mkdtemp(prefix="c17_", dir="/var/tmp" if os.path.isdir("/var/tmp") else None)
     try:
